@@ -633,9 +633,16 @@ func verifStreamRunBuffered(tr *Translator, sc verifStreamScn, items []verifStre
 	_ = dn.Decode(&mn)
 	blocks := []verifStreamItem{}
 	cs, _ := mn["content"].([]any)
+	wireOK := true // every block carries the field the Messages API requires of its kind, empty or not
 	for _, c := range cs {
 		cb, _ := c.(map[string]any)
 		ty, _ := cb["type"].(string)
+		if _, has := cb["input"]; ty == "tool_use" && !has {
+			wireOK = false
+		}
+		if _, has := cb["text"]; ty == "text" && !has {
+			wireOK = false
+		}
 		it := verifStreamItem{K: verifStreamKind(ty)}
 		it.Text, _ = cb["text"].(string)
 		it.ID, _ = cb["id"].(string)
@@ -648,7 +655,7 @@ func verifStreamRunBuffered(tr *Translator, sc verifStreamScn, items []verifStre
 		blocks = append(blocks, it)
 	}
 	u, _ := m["usage"].(map[string]any)
-	b.Emit("Buffered", "ok", true, "mtype", verifStreamStr(m["type"]), "role", verifStreamStr(m["role"]),
+	b.Emit("Buffered", "ok", true, "wire", wireOK, "mtype", verifStreamStr(m["type"]), "role", verifStreamStr(m["role"]),
 		"blocks", verifStreamEncItems(blocks), "stop", verifStreamStr(m["stop_reason"]),
 		"uin", verifStreamIdx(u["input_tokens"]), "uout", verifStreamIdx(u["output_tokens"]))
 }
